@@ -27,8 +27,9 @@ type zzSt struct {
 }
 
 type zzGenCfg struct {
-	maxDepth int
-	lens     []int // max statements per block at each depth
+	maxDepth  int
+	lens      []int // max statements per block at each depth
+	declFirst bool  // nested two-statement blocks begin with a shadowing declaration
 }
 
 func zzGenBlock(cfg *zzGenCfg, depth int, inLoop, inFunc bool, ctr *int) []*zzSt {
@@ -53,6 +54,11 @@ func zzGenBlock(cfg *zzGenCfg, depth int, inLoop, inFunc bool, ctr *int) []*zzSt
 		}
 		if last && inFunc {
 			kinds = append(kinds, "return")
+		}
+		if cfg.declFirst && depth >= 1 && n == 2 && i == 0 {
+			// two-statement nested blocks start with the shadowing declaration:
+			// whatever follows (break, return, loops, calls) runs under a shadowed x
+			kinds = []string{"decl"}
 		}
 		kind := kinds[zzChoice("stmt", len(kinds))]
 		*ctr++
